@@ -175,6 +175,8 @@ def main(argv=None):
     ap.add_argument("--no-detcheck", action="store_true")
     ap.add_argument("--keep-going", action="store_true", help="report counts per clause instead of stopping at the first violation")
     ap.add_argument("--wall-cap", type=float, default=None)
+    ap.add_argument("--with-tests", action="store_true", help="selftest-mutants: also run the baseline suite on each mutant")
+    ap.add_argument("--only", default=None, help="selftest-mutants: comma-separated mutant names")
     args = ap.parse_args(argv)
 
     if args.prop.startswith("selftest"):
@@ -386,8 +388,9 @@ def do_search(args, cfg, base, t0):
         small, execs, steps = shrink.shrink(mat, fails, max_execs=250 if args.tier == "quick" else 600, extra_candidates=cfg.get("shrink"))
         final = exec_plan(cfg, small, base, "fin")
         fdetail = next((v[1] for v in final.get("violations", []) if v[0] == clause), detail)
-        os.makedirs(os.path.join(VERIF, "replays"), exist_ok=True)
-        path = os.path.join(VERIF, "replays", f"{prop}-{clause}-{args.seed}-{j[0]}{j[1]}.json")
+        rdir = os.environ.get("VERIF_REPLAY_DIR") or os.path.join(VERIF, "replays")
+        os.makedirs(rdir, exist_ok=True)
+        path = os.path.join(rdir, f"{prop}-{clause}-{args.seed}-{j[0]}{j[1]}.json")
         with open(path, "w") as f:
             json.dump({"property": prop, "clause": clause, "detail": fdetail, "verif_seed": args.seed, "job": list(j), "variant": variant,
                        "shrink_execs": execs, "shrink_steps": steps, "plan": small}, f, indent=1, sort_keys=True)
